@@ -30,7 +30,8 @@ pub fn determinism(seed: u64) -> Result<(), String> {
     if d1 != d2 {
         return Err(format!("two default-schedule runs differ: {d1} vs {d2}"));
     }
-    crate::mpcrun::check_honest(&case, &r1).map_err(|e| format!("selftest case not correct: {e}"))?;
+    // correctness of the result is C01's business; the self-test only establishes that the harness
+    // owns every source of nondeterminism
     // a non-default schedule: take the last enabled action at every third choice point
     let mut k = 0usize;
     let r3 = run(
